@@ -94,6 +94,7 @@ func (h *hist) feed(name string, id int, order []int, store hg.Store, batch int,
 		// gone by construction); a consensus pass that fails below the supported cache window ends the run (statistic)
 		nd.NoDump = true
 		modelled = false
+		fmt.Fprintf(w.Out, "F %d\n", id)
 	}
 	passes := func() error {
 		if err := nd.Hg.DivideRounds(); err != nil {
